@@ -68,7 +68,8 @@ def class_spec(draw, idx, prev):
         "name": name, "frozen": frozen, "eq": eq, "order": order, "unsafe_hash": unsafe_hash,
         "base": base, "base_has_default": base_has_default, "fields": fields,
         "dict": draw(st.booleans()), "weakref": draw(st.booleans()),
-        "user_state": draw(st.sampled_from([False, False, True])),
+        # False | True (both hooks) | "set" (only __setstate__, written to accept every state shape CPython hands out)
+        "user_state": draw(st.sampled_from([False, False, True, "set"])),
         "poison_before": draw(st.sampled_from([False, False, False, True])),
     }
 
@@ -87,6 +88,20 @@ def program(draw):
 
 
 _LIT = {"int": "7", "str": "'dflt'", "list": None}
+
+_SETSTATE = """    def __setstate__(self, st):
+        if isinstance(st, tuple):
+            d = dict(st[0] or {})
+            d.update(st[1] or {})
+        else:
+            d = dict(st)
+        for k, v in d.items():
+            object.__setattr__(self, k, v)
+        first = %(first)s
+        if first is not None:
+            v = getattr(self, first)
+            mark = 1000 if isinstance(v, int) else '!' if isinstance(v, str) else ['restored']
+            object.__setattr__(self, first, v + mark)"""
 
 
 def _flags(s):
@@ -138,9 +153,11 @@ def emit(specs, slotted: bool) -> str:
             else:
                 body.append(f"    {n}: {typ} = dataclasses.field(default_factory=list)")
         allf = _all_fields(s)
-        if s["user_state"]:
+        if s["user_state"] is True:
             body.append("    def __getstate__(self):\n        return {f: getattr(self, f) for f in %r}" % (allf,))
-            body.append("    def __setstate__(self, st):\n        for k, v in st.items():\n            object.__setattr__(self, k, v)")
+        if s["user_state"]:
+            # the hook is observable: it marks the first field of the restored object
+            body.append(_SETSTATE % {"first": repr(allf[0]) if allf else "None"})
         if not body:
             body.append("    pass")
         cls_src = f"{deco}@dataclasses.dataclass({_flags(s)})\nclass {s['name']}{base_expr}:\n" + "\n".join(body) + "\n"
@@ -262,6 +279,7 @@ def check_program(specs, col, tag):
                 col.label("poison-decoration")
             if s.get("shared_decorator"):
                 col.label("shared-decorator-object")
+            col.label(f"user-state-hooks:{s['user_state']},frozen={s['frozen']}")
         derr = [e for e in s_.ERRORS if e[0] == "decorate"]
         for _, i, msg in derr:
             col.violation("decoration-never-raises", case, f"class #{i} {specs[i]['name']}: {msg}",
